@@ -19,9 +19,12 @@
 import RumaModel.Lemmas.PushMatch
 import RumaModel.Lemmas.PushPath
 import RumaModel.Lemmas.PushCount
+import RumaModel.Lemmas.PushCond
 namespace Ruma.Props.C12
 open Ruma.Push
-open Ruma.Spec.Glob (Glob WordMatch globDecide wordDecide)
+open Ruma.Spec.Glob (Glob WordMatch globDecide wordDecide wordMatches valueMatches)
+open Ruma.Spec.Push (CondHolds JsonIs kindRank orderedRules ruleHolds MemberCountDenotes MemberCountHolds
+  memberCountDecide hasMentions lookupStr lookup sentBySelf)
 
 /-- The decision procedure `globDecide` is sound and complete for the inductive glob relation, for
 every pattern and every text. -/
@@ -226,6 +229,213 @@ theorem getMatch_none (E : Ext) (hE : ExtOk E) (rs : Ruleset) (ev : PJ) (ctx : C
   intro r hr
   simpa using List.find?_eq_none.1 h r hr
 
+/-- `matches_word` as a whole — the `self == pattern` shortcut, the empty pattern, the wildcard path
+(chunked regular expression) and the literal path (hand-written scanner) together: for every
+pattern and every text it never panics and answers exactly the spec's word-boundary matching
+(given the assumption about `regex`). -/
+theorem matchesWord_iff_spec (E : Ext) (hE : ExtOk E) (p s : Text) :
+    ∃ b, matchesWord E p s = .ok b ∧ (b = true ↔ WordMatch p s) :=
+  ⟨_, matchesWord_spec E hE p s, Ruma.Spec.Glob.wordDecide_iff_WordMatch p s⟩
+
+/-- The six spellings of `is`: for every count up to `2^53 − 1`, `n`, `==n`, `<n`, `>n`, `>=n`,
+`<=n` (`n` in decimal) are read by `RoomMemberCountIs::from_str` as the comparison they name with
+`n`; and what `Display` writes is read back as the same value. -/
+theorem memberCount_spellings (n : Nat) (hn : n ≤ maxSafeUInt) :
+    let d := Nat.toDigits 10 n
+    MemberCountIs.fromStr d = some ⟨.eq, n⟩ ∧
+    MemberCountIs.fromStr ("==".toList ++ d) = some ⟨.eq, n⟩ ∧
+    MemberCountIs.fromStr ("<".toList ++ d) = some ⟨.lt, n⟩ ∧
+    MemberCountIs.fromStr (">".toList ++ d) = some ⟨.gt, n⟩ ∧
+    MemberCountIs.fromStr (">=".toList ++ d) = some ⟨.ge, n⟩ ∧
+    MemberCountIs.fromStr ("<=".toList ++ d) = some ⟨.le, n⟩ ∧
+    ∀ op, MemberCountIs.fromStr (MemberCountIs.display ⟨op, n⟩) = some ⟨op, n⟩ :=
+  ⟨fromStr_spelling ([], .eq) (by decide) n hn, fromStr_spelling ("==".toList, .eq) (by decide) n hn,
+   fromStr_spelling ("<".toList, .lt) (by decide) n hn, fromStr_spelling (">".toList, .gt) (by decide) n hn,
+   fromStr_spelling (">=".toList, .ge) (by decide) n hn, fromStr_spelling ("<=".toList, .le) (by decide) n hn,
+   fun op => fromStr_display ⟨op, n⟩ hn⟩
+
+example : (9007199254740991 : Nat) ≤ maxSafeUInt := by decide
+
+/-- The decision procedure that answers `c12.spec.count` is sound and complete for the spec's
+grammar of `is` (`MemberCountDenotes`: one of the spellings `==`, `<`, `>`, `>=`, `<=` or none,
+followed by a non-empty string of ASCII digits denoting a number ≤ 2^53 − 1): it says `true` iff the
+condition holds, and `none` iff the string is not a well-formed `is`; a well-formed string denotes
+exactly one comparison. -/
+theorem memberCountDecide_iff_Holds (s : Text) (x : Nat) :
+    (memberCountDecide s x = some true ↔ MemberCountHolds s x) ∧
+    (memberCountDecide s x = none ↔ ¬ ∃ op n, MemberCountDenotes s op n) ∧
+    (∀ op n op' n', MemberCountDenotes s op n → MemberCountDenotes s op' n' → op = op' ∧ n = n') :=
+  ⟨memberCountDecide_true_iff s x, memberCountDecide_none_iff s x,
+   fun _ _ _ _ h h' => MemberCountDenotes_unique h h'⟩
+
+/-- Every `PushCondition` variant: `PushCondition::applies` never panics and holds iff the event was
+not sent by the user and the condition holds in the spec's reading `CondHolds` — `event_match`
+(string property, or the context's room id for `room_id`; word-boundary glob for `content.body`,
+whole-value glob otherwise), `contains_display_name`, `room_member_count`,
+`sender_notification_permission`, `event_property_is`, `event_property_contains`; an unknown
+condition never holds. -/
+theorem condition_iff_spec (E : Ext) (hE : ExtOk E) (ev : PJ) (ctx : Ctx) (c : Cond) :
+    ∃ b, c.applies E (flatten ev) ctx = .ok b ∧
+      (b = true ↔ sentBySelf ev ctx = false ∧ CondHolds (paramsOf E) ev ctx c) := by
+  cases hself : selfSent (flatten ev) ctx
+  · refine ⟨_, Cond_applies_eq E hE ev ctx hself c, ?_⟩
+    rw [condHolds_iff, ← selfSent_eq, hself]
+    simp
+  · refine ⟨false, by simp [Cond.applies, hself], ?_⟩
+    rw [← selfSent_eq, hself]
+    simp
+
+/-- Stated outright: an unknown condition kind never holds (so a rule containing one never
+matches). -/
+theorem condition_unknown_false (E : Ext) (ev : FMap) (ctx : Ctx) :
+    Cond.custom.applies E ev ctx = .ok false := by
+  unfold Cond.applies
+  split <;> rfl
+
+/-- `event_property_is`: holds iff the event has a property at exactly that (escaped) path whose
+value is exactly the given scalar — same JSON type, same value; integers are compared as
+canonical-JSON integers; arrays, objects and floats never match. -/
+theorem eventPropertyIs_iff (E : Ext) (hE : ExtOk E) (ev : PJ) (ctx : Ctx) (key : Text) (value : Scalar)
+    (hother : sentBySelf ev ctx = false) :
+    (Cond.eventPropertyIs key value).applies E (flatten ev) ctx = .ok true ↔
+      ∃ v, lookup ev key = some v ∧ v = Ruma.Spec.Push.scalarJson value ∧
+        ∀ i, value = .int i → Ruma.Spec.Push.canonicalInt i = true := by
+  obtain ⟨b, hb, hiff⟩ := condition_iff_spec E hE ev ctx (.eventPropertyIs key value)
+  rw [hb]
+  simp only [Except.ok.injEq, hiff, hother, true_and]
+  rfl
+
+/-- `event_property_contains`: holds iff the property at that path is an array one of whose
+elements is exactly the given scalar. -/
+theorem eventPropertyContains_iff (E : Ext) (hE : ExtOk E) (ev : PJ) (ctx : Ctx) (key : Text)
+    (value : Scalar) (hother : sentBySelf ev ctx = false) :
+    (Cond.eventPropertyContains key value).applies E (flatten ev) ctx = .ok true ↔
+      ∃ xs, lookup ev key = some (.arr xs) ∧ ∃ x ∈ xs, x = Ruma.Spec.Push.scalarJson value ∧
+        ∀ i, value = .int i → Ruma.Spec.Push.canonicalInt i = true := by
+  obtain ⟨b, hb, hiff⟩ := condition_iff_spec E hE ev ctx (.eventPropertyContains key value)
+  rw [hb]
+  simp only [Except.ok.injEq, hiff, hother, true_and]
+  rfl
+
+/-- Kind priority, stated outright: the returned rule's kind is the most important kind
+(override < content < room < sender < underride) that has a holding rule — no rule that holds
+belongs to a more important kind than the rule returned. -/
+theorem getMatch_kind_priority (E : Ext) (hE : ExtOk E) (rs : Ruleset) (ev : PJ) (ctx : Ctx)
+    (r : AnyRule) (h : getMatch E rs ev ctx = .ok (some r)) :
+    ∀ x ∈ orderedRules rs, ruleHolds (paramsOf E) ev ctx x = true → kindRank r ≤ kindRank x := by
+  obtain ⟨before, after, hsplit, hr, hno⟩ := getMatch_is_first E hE rs ev ctx r h
+  intro x hx hxh
+  have hs := orderedRules_sorted rs
+  rw [hsplit] at hs hx
+  rcases List.mem_append.1 hx with hb | hb
+  · rw [hno x hb] at hxh; cases hxh
+  · rcases List.mem_cons.1 hb with rfl | ha
+    · exact Nat.le_refl _
+    · have := (List.pairwise_append.1 hs).2.1
+      exact List.rel_of_pairwise_cons this ha
+
+/-- The rule holds in the spec's sense, as a proposition: enabled, not a legacy mention rule
+switched off by `m.mentions`, and every condition it stands for holds. -/
+theorem ruleHolds_iff (E : Ext) (ev : PJ) (ctx : Ctx) (r : AnyRule) :
+    ruleHolds (paramsOf E) ev ctx r = true ↔
+      Ruma.Spec.Push.enabled r = true ∧
+      ¬ (Ruma.Spec.Push.legacyMention r = true ∧ hasMentions ev = true) ∧
+      ∀ c ∈ Ruma.Spec.Push.conditions r, CondHolds (paramsOf E) ev ctx c := by
+  unfold ruleHolds
+  simp only [Bool.and_eq_true, Bool.not_eq_true', List.all_eq_true, condHolds_iff, and_assoc]
+  constructor
+  · rintro ⟨h1, h2, h3⟩
+    refine ⟨h1, ?_, h3⟩
+    rintro ⟨a, b⟩; simp [a, b] at h2
+  · rintro ⟨h1, h2, h3⟩
+    refine ⟨h1, ?_, h3⟩
+    cases ha : Ruma.Spec.Push.legacyMention r <;> cases hb : hasMentions ev <;> simp_all
+
+/-- Per-kind shape of `AnyPushRuleRef::applies` for somebody else's event (never a panic):
+* override / underride: enabled, all conditions hold, and the rule is not `.m.rule.roomnotif` /
+  `.m.rule.contains_display_name` on an event carrying `content.m.mentions`;
+* content: enabled, `content.body` is a string that the rule's pattern matches on word boundaries,
+  and the rule is not `.m.rule.contains_user_name` on an event carrying `content.m.mentions`;
+* room: enabled and the rule id, as a glob, matches the room id of the context (not of the event);
+* sender: enabled and `sender` is a string that the rule id, as a glob, matches. -/
+theorem rule_applies_shapes (E : Ext) (hE : ExtOk E) (ev : PJ) (ctx : Ctx)
+    (hother : sentBySelf ev ctx = false) :
+    (∀ r : CondRule, ∀ k ∈ [AnyRule.override_, AnyRule.underride],
+      (k r).applies E (flatten ev) ctx = .ok true ↔
+        r.enabled = true ∧
+        ¬ ((r.ruleId = Ruma.Spec.Push.ruleRoomNotif ∨ r.ruleId = Ruma.Spec.Push.ruleContainsDisplayName) ∧
+            hasMentions ev = true) ∧
+        ∀ c ∈ r.conditions, CondHolds (paramsOf E) ev ctx c) ∧
+    (∀ r : PatRule, (AnyRule.content r).applies E (flatten ev) ctx = .ok true ↔
+        r.enabled = true ∧
+        ¬ (r.ruleId = Ruma.Spec.Push.ruleContainsUserName ∧ hasMentions ev = true) ∧
+        ∃ body, lookupStr ev Ruma.Spec.Push.keyContentBody = some body ∧
+          wordMatches E.lower r.pattern body) ∧
+    (∀ r : SimpleRule, (AnyRule.room r).applies E (flatten ev) ctx = .ok true ↔
+        r.enabled = true ∧ valueMatches E.lower r.ruleId ctx.roomId) ∧
+    (∀ r : SimpleRule, (AnyRule.sender r).applies E (flatten ev) ctx = .ok true ↔
+        r.enabled = true ∧
+        ∃ s, lookupStr ev Ruma.Spec.Push.keySender = some s ∧ valueMatches E.lower r.ruleId s) := by
+  have hself : selfSent (flatten ev) ctx = false := by rw [selfSent_eq]; exact hother
+  have key : ∀ r : AnyRule, r.applies E (flatten ev) ctx = .ok true ↔ ruleHolds (paramsOf E) ev ctx r = true := by
+    intro r; rw [AnyRule_applies_eq E hE ev ctx hself]; simp
+  have n1 : ¬ Ruma.Spec.Push.keyContentBody = Ruma.Spec.Push.keyRoomId := by decide
+  have n2 : ¬ Ruma.Spec.Push.keyRoomId = Ruma.Spec.Push.keyContentBody := by decide
+  have n3 : ¬ Ruma.Spec.Push.keySender = Ruma.Spec.Push.keyRoomId := by decide
+  have n4 : ¬ Ruma.Spec.Push.keySender = Ruma.Spec.Push.keyContentBody := by decide
+  refine ⟨?_, ?_, ?_, ?_⟩
+  · intro r k hk
+    simp only [List.mem_cons, List.not_mem_nil, or_false] at hk
+    rcases hk with rfl | rfl <;>
+    · rw [key, ruleHolds_iff]
+      simp only [Ruma.Spec.Push.enabled, Ruma.Spec.Push.legacyMention, Ruma.Spec.Push.conditions,
+        Bool.or_eq_true, decide_eq_true_eq]
+  · intro r
+    rw [key, ruleHolds_iff]
+    simp only [Ruma.Spec.Push.enabled, Ruma.Spec.Push.legacyMention, Ruma.Spec.Push.conditions,
+      decide_eq_true_eq, List.mem_singleton, forall_eq, CondHolds, n1, if_false, if_true, paramsOf]
+  · intro r
+    rw [key, ruleHolds_iff]
+    simp only [Ruma.Spec.Push.enabled, Ruma.Spec.Push.legacyMention, Ruma.Spec.Push.conditions,
+      List.mem_singleton, forall_eq, CondHolds, n2, if_false, if_true, paramsOf, Bool.false_eq_true,
+      false_and, not_false_eq_true, true_and]
+    constructor
+    · rintro ⟨h, v, rfl, hv⟩; exact ⟨h, hv⟩
+    · rintro ⟨h, hv⟩; exact ⟨h, _, rfl, hv⟩
+  · intro r
+    rw [key, ruleHolds_iff]
+    simp only [Ruma.Spec.Push.enabled, Ruma.Spec.Push.legacyMention, Ruma.Spec.Push.conditions,
+      List.mem_singleton, forall_eq, CondHolds, n3, n4, if_false, paramsOf, Bool.false_eq_true,
+      false_and, not_false_eq_true, true_and]
+
+/-- Room and sender rules whose id has no glob character after case folding are plain
+case-insensitive equality tests: of the context's room id, resp. of the event's `sender`. -/
+theorem room_sender_rule_equality (E : Ext) (hE : ExtOk E) (ev : PJ) (ctx : Ctx)
+    (hother : sentBySelf ev ctx = false) (r : SimpleRule)
+    (hlit : ∀ c ∈ E.lower r.ruleId, c ≠ '*' ∧ c ≠ '?') :
+    ((AnyRule.room r).applies E (flatten ev) ctx = .ok true ↔
+        r.enabled = true ∧ E.lower ctx.roomId = E.lower r.ruleId) ∧
+    ((AnyRule.sender r).applies E (flatten ev) ctx = .ok true ↔
+        r.enabled = true ∧
+        ∃ s, lookupStr ev Ruma.Spec.Push.keySender = some s ∧ E.lower s = E.lower r.ruleId) := by
+  obtain ⟨_, _, hroom, hsender⟩ := rule_applies_shapes E hE ev ctx hother
+  refine ⟨?_, ?_⟩
+  · rw [hroom r]; unfold valueMatches; rw [Ruma.Spec.Glob.Glob_literal hlit]
+  · rw [hsender r]; unfold valueMatches; simp only [Ruma.Spec.Glob.Glob_literal hlit]
+
+/-- `Ruleset::get_actions` never panics and returns the actions of the rule `get_match` returns —
+the spec's first matching enabled rule — or nothing when no rule matches (in particular for the
+user's own events). -/
+theorem getActions_eq {α : Type} (acts : AnyRule → List α) (E : Ext) (hE : ExtOk E) (rs : Ruleset)
+    (ev : PJ) (ctx : Ctx) :
+    getActions acts E rs ev ctx =
+      .ok (match Ruma.Spec.Push.getMatch (paramsOf E) rs ev ctx with
+           | some r => acts r
+           | none => []) := by
+  unfold getActions
+  rw [getMatch_spec E hE]
+  cases Ruma.Spec.Push.getMatch (paramsOf E) rs ev ctx <;> rfl
+
 end Ruma.Props.C12
 
 #print axioms Ruma.Props.C12.globDecide_iff_Glob
@@ -246,3 +456,15 @@ end Ruma.Props.C12
 #print axioms Ruma.Props.C12.getMatch_self_sent
 #print axioms Ruma.Props.C12.getMatch_never_disabled
 #print axioms Ruma.Props.C12.getMatch_none
+#print axioms Ruma.Props.C12.matchesWord_iff_spec
+#print axioms Ruma.Props.C12.memberCount_spellings
+#print axioms Ruma.Props.C12.memberCountDecide_iff_Holds
+#print axioms Ruma.Props.C12.condition_iff_spec
+#print axioms Ruma.Props.C12.condition_unknown_false
+#print axioms Ruma.Props.C12.eventPropertyIs_iff
+#print axioms Ruma.Props.C12.eventPropertyContains_iff
+#print axioms Ruma.Props.C12.getMatch_kind_priority
+#print axioms Ruma.Props.C12.ruleHolds_iff
+#print axioms Ruma.Props.C12.rule_applies_shapes
+#print axioms Ruma.Props.C12.room_sender_rule_equality
+#print axioms Ruma.Props.C12.getActions_eq
